@@ -117,3 +117,208 @@ pub fn c05(known: &Known) -> CoreScenario {
     probe.parents.push(Some(s("n")));
     CoreScenario::new("C05", vec![], ops, probe, known.open_for("C05"))
 }
+
+/// C03: mutators + publish + (p)subscribe/unsubscribe/disconnect at every position.
+pub fn c03(known: &Known, max_subs: usize) -> CoreScenario {
+    let mut ops = vec![];
+    for k in ["a", "a/b", "b"] {
+        ops.push(Op::Set(A, s(k), json!(1)));
+        ops.push(Op::Set(A, s(k), json!(2)));
+        ops.push(Op::Delete(A, s(k)));
+    }
+    ops.push(Op::CSet(A, s("a/b"), json!(3), 0));
+    ops.push(Op::CSet(A, s("a/b"), json!(1), 1));
+    for p in ["a/?", "a/#"] {
+        ops.push(Op::PDelete(A, s(p)));
+    }
+    // issued by the server's own client: a session end writes $SYS/clients, and an ordinary
+    // client's "#" reaching $SYS is C08's business, not C03's
+    ops.push(Op::PDelete(INTERNAL, s("#")));
+    ops.push(Op::Import(s(IMPORT_PLAIN)));
+    ops.push(Op::Import(s(IMPORT_CAS)));
+    ops.push(Op::Publish(s("a/b"), json!(9)));
+    ops.push(Op::Publish(s("b"), json!(9)));
+    ops.push(Op::SPubInit(A, 50, s("a/b")));
+    ops.push(Op::SPub(A, 50, json!(8)));
+    // subscriptions: (unique, live_only)
+    ops.push(Op::Subscribe(A, 1, s("a/b"), false, false));
+    ops.push(Op::Subscribe(A, 2, s("a/b"), true, false));
+    ops.push(Op::Subscribe(B, 3, s("a/b"), false, true));
+    ops.push(Op::Subscribe(B, 4, s("b"), true, true));
+    ops.push(Op::PSubscribe(B, 5, s("a/?"), false, false));
+    ops.push(Op::PSubscribe(B, 6, s("a/#"), false, false));
+    ops.push(Op::PSubscribe(B, 7, s("a/#"), true, false));
+    ops.push(Op::PSubscribe(A, 8, s("#"), false, true));
+    ops.push(Op::PSubscribe(A, 9, s("?/b"), true, true));
+    ops.push(Op::PSubscribe(A, 10, s("a/#/b"), false, false));
+    for (c, tid) in [(A, 1), (A, 2), (B, 5), (B, 6), (A, 8), (B, 77)] {
+        ops.push(Op::Unsubscribe(c, tid));
+    }
+    ops.push(Op::Disconnect(A));
+    ops.push(Op::Disconnect(B));
+    let probe = Probe {
+        keys: vec![s("a"), s("a/b"), s("b"), s("n/m")],
+        patterns: vec![s("a/?"), s("a/#"), s("#"), s("?/b")],
+        parents: vec![None, Some(s("a"))],
+        parent_patterns: vec![],
+    };
+    let mut sc = CoreScenario::new("C03", vec![], ops, probe, known.open_for("C03"));
+    sc.max_subs = max_subs;
+    sc
+}
+
+/// C06: lock / acquireLock / releaseLock / session end by three clients over nested keys.
+pub fn c06(known: &Known, clients: &[C], keys: &[&str]) -> CoreScenario {
+    let mut ops = vec![];
+    for c in clients {
+        for k in keys {
+            ops.push(Op::Lock(*c, s(k)));
+            ops.push(Op::AcquireLock(*c, s(k)));
+            ops.push(Op::ReleaseLock(*c, s(k)));
+        }
+        ops.push(Op::Disconnect(*c));
+        ops.push(Op::Connect(*c));
+    }
+    ops.push(Op::Lock(A, s("x/?")));
+    ops.push(Op::AcquireLock(A, s("#")));
+    let setup = clients.iter().map(|c| Op::Connect(*c)).collect();
+    let probe = Probe { keys: vec![s("x")], patterns: vec![], parents: vec![None], parent_patterns: vec![] };
+    CoreScenario::new("C06", setup, ops, probe, known.open_for("C06"))
+}
+
+fn sys_key(c: C, leaf: &str) -> String {
+    format!("$SYS/clients/{}/{leaf}", cid(c))
+}
+
+/// C07: sessions with grave goods / last wills / subscriptions / publish streams / locks ending
+/// in every order.
+pub fn c07(known: &Known, three_clients: bool) -> CoreScenario {
+    let mut ops = vec![];
+    let clients: Vec<C> = if three_clients { vec![A, B, CC] } else { vec![A, B] };
+    for c in &clients {
+        ops.push(Op::Connect(*c));
+        ops.push(Op::Disconnect(*c));
+    }
+    let other = sys_key(B, "#");
+    let ggs = vec![
+        json!(["g/#"]),
+        json!(["g/x", "h"]),
+        json!(["?/x"]),
+        json!([other]),
+        json!(["#"]),
+    ];
+    for g in &ggs {
+        ops.push(Op::Set(A, sys_key(A, "graveGoods"), g.clone()));
+    }
+    let lws = vec![
+        json!([{"key": "w", "value": 1}]),
+        json!([{"key": "g/x", "value": 2}, {"key": "w", "value": 3}]),
+        json!([{"key": "$SYS/evil", "value": 1}]),
+    ];
+    for w in &lws {
+        ops.push(Op::Set(A, sys_key(A, "lastWill"), w.clone()));
+    }
+    ops.push(Op::Set(B, sys_key(B, "graveGoods"), json!(["g/#", "w"])));
+    ops.push(Op::Set(B, sys_key(B, "lastWill"), json!([{"key": "h", "value": 4}])));
+    if three_clients {
+        ops.push(Op::Set(CC, sys_key(CC, "graveGoods"), json!(["h"])));
+    }
+    ops.push(Op::Set(B, s("g/x"), json!(1)));
+    ops.push(Op::Set(B, s("g"), json!(1)));
+    ops.push(Op::Set(A, s("h"), json!(1)));
+    ops.push(Op::CSet(B, s("w"), json!(5), 0));
+    ops.push(Op::Subscribe(B, 1, s("w"), false, false));
+    ops.push(Op::PSubscribe(B, 2, s("g/#"), false, false));
+    ops.push(Op::PSubscribe(A, 3, s("#"), false, true));
+    ops.push(Op::SubscribeLs(A, 4, Some(s("g"))));
+    ops.push(Op::SubscribeLs(B, 5, None));
+    ops.push(Op::SPubInit(A, 6, s("p")));
+    ops.push(Op::SPub(A, 6, json!(1)));
+    ops.push(Op::Lock(A, s("l")));
+    ops.push(Op::AcquireLock(B, s("l")));
+    ops.push(Op::AcquireLock(A, s("l")));
+    let mut keys = vec![s("g"), s("g/x"), s("h"), s("w"), s("p"), s("$SYS/clients"), s("$SYS/evil")];
+    for c in &clients {
+        keys.push(sys_key(*c, "graveGoods"));
+        keys.push(sys_key(*c, "lastWill"));
+        keys.push(sys_key(*c, "protocol"));
+    }
+    let probe = Probe {
+        keys,
+        patterns: vec![s("$SYS/clients/?/graveGoods"), s("$SYS/clients/?/lastWill"), s("g/?"), s("?")],
+        parents: vec![None, Some(s("g")), Some(s("$SYS")), Some(s("$SYS/clients"))],
+        parent_patterns: vec![],
+    };
+    let mut sc = CoreScenario::new("C07", vec![], ops, probe, known.open_for("C07"));
+    sc.max_subs = 4;
+    sc
+}
+
+/// C08: every request kind of an ordinary client crossed with every key/pattern shape that can
+/// reach `$SYS`; sentinels planted and watched by the server's own client.
+pub fn c08(known: &Known) -> CoreScenario {
+    let setup = vec![
+        Op::Set(INTERNAL, s("$SYS/s1"), json!("srv")),
+        Op::Set(INTERNAL, s("$SYS/locks/x"), json!("srv")),
+        Op::Set(INTERNAL, s("u"), json!(0)),
+        Op::Connect(B),
+        Op::Set(B, sys_key(B, "graveGoods"), json!(["q"])),
+        Op::Connect(A),
+        Op::PSubscribe(INTERNAL, 900, s("$SYS/#"), false, true),
+        Op::Subscribe(INTERNAL, 901, s("$SYS/s1"), false, true),
+        Op::PSubscribe(INTERNAL, 902, s("#"), false, true),
+    ];
+    let shapes: Vec<String> = vec![
+        s("$SYS"),
+        s("$SYS/s1"),
+        s("$SYS/?"),
+        s("$SYS/#"),
+        s("?/s1"),
+        s("?/?"),
+        s("#"),
+        s("?/#"),
+        sys_key(B, "#"),
+        sys_key(B, "graveGoods"),
+        sys_key(A, "graveGoods"),
+        sys_key(A, "protocol"),
+        sys_key(A, "clientName"),
+    ];
+    let mut ops = vec![];
+    for k in &shapes {
+        ops.push(Op::Set(A, k.clone(), json!(["x"])));
+        ops.push(Op::CSet(A, k.clone(), json!(["x"]), 0));
+        ops.push(Op::Delete(A, k.clone()));
+        ops.push(Op::PDelete(A, k.clone()));
+        ops.push(Op::Publish(k.clone(), json!("fake")));
+        ops.push(Op::SPubInit(A, 60, k.clone()));
+        ops.push(Op::Lock(A, k.clone()));
+    }
+    ops.push(Op::SPub(A, 60, json!("fake")));
+    ops.push(Op::AcquireLock(A, s("$SYS/s1")));
+    ops.push(Op::ReleaseLock(A, s("$SYS/s1")));
+    for g in [json!(["#"]), json!(["$SYS/#"]), json!(["?/s1"]), json!(["$SYS/s1", "u"])] {
+        ops.push(Op::Set(A, sys_key(A, "graveGoods"), g));
+    }
+    ops.push(Op::Set(A, sys_key(A, "lastWill"), json!([{"key": "$SYS/s1", "value": "evil"}, {"key": "u", "value": 1}])));
+    ops.push(Op::Disconnect(A));
+    ops.push(Op::Connect(A));
+    let probe = Probe {
+        keys: vec![
+            s("$SYS/s1"),
+            s("$SYS/locks/x"),
+            s("$SYS/clients"),
+            s("$SYS"),
+            s("u"),
+            sys_key(B, "graveGoods"),
+            sys_key(B, "protocol"),
+            sys_key(A, "graveGoods"),
+            sys_key(A, "lastWill"),
+            sys_key(A, "clientName"),
+            sys_key(A, "protocol"),
+        ],
+        patterns: vec![s("$SYS/?"), s("$SYS/clients/?/?")],
+        parents: vec![None, Some(s("$SYS")), Some(s("$SYS/clients"))],
+        parent_patterns: vec![],
+    };
+    CoreScenario::new("C08", setup, ops, probe, known.open_for("C08"))
+}
